@@ -281,6 +281,22 @@ Theorem C13_renewal_not_repeated : forall s t th ch c bg st s0 b,
 Proof. exact renewal_not_repeated. Qed.
 Print Assumptions C13_renewal_not_repeated.
 
+(** ** one shared renewal that completes: the background worker is not tied to the handshake that
+    started it — its issuer call has no cancellation alternative before its own 5-minute deadline, its
+    other steps none at all (the handshake's return is a step of another goroutine and leaves it
+    untouched: [C13_serve_current_while_renewing], frame).  History form in the monitor
+    ([Check.delivered_ok]): in the serve-current scenario a complete run without any denial / failure /
+    cancellation chosen by the harness contains a successful issuer call. *)
+Theorem C13_background_renewal_outlives_its_handshake :
+  (forall s t th ch c st, t_pc th = PRenIssue ch c true st -> now s < st + t_renew_bg_ctx ->
+     thread_step s t th ACancel = None) /\
+  (forall s t th,
+     (exists ch c st, t_pc th = PRenGate ch c true st) \/ (exists ch c st, t_pc th = PRenLoad ch c true st) \/
+     (exists ch c, t_pc th = PRenReload ch c true) \/ (exists ch c r, t_pc th = PRenUnblock ch c r true) ->
+     thread_step s t th ACancel = None).
+Proof. split; [exact background_renewal_not_cancellable_early|exact background_worker_other_steps_not_cancellable]. Qed.
+Print Assumptions C13_background_renewal_outlives_its_handshake.
+
 (** the statement shapes of handshake.go that the LTS takes as atomic steps / literals are the
     ones in the source today (read by the translator on every run; a change breaks this proof) *)
 Theorem C13_source_shape_is_the_modelled_one :
@@ -289,7 +305,8 @@ Theorem C13_source_shape_is_the_modelled_one :
   hs_unblock_call_counts = [1; 2]%nat /\
   hs_obtain_unblock_then_return = true /\
   hs_serve_current_iff_unexpired_unrevoked = true /\
-  hs_background_iff_unexpired = true.
+  hs_background_iff_unexpired = true /\
+  hs_background_ctx_is_background = true.
 Proof. exact source_shape. Qed.
 Print Assumptions C13_source_shape_is_the_modelled_one.
 
